@@ -157,6 +157,10 @@ def _no_shared_exception_instance(ck, repo):
 
 def _per_request_objects(ck, repo, ph):
     _no_shared_exception_instance(ck, repo)
+    # what two requests in flight share is the baked schema and the parsed-document cache: a memoised helper is one more object
+    # both receive (a list of suggestions one request's error builder pops from is shorter for the other)
+    from .c16 import no_other_cache
+    no_other_cache(ck, repo)
     ctor_sites = {"ExecutionContext": [], "ResolveInfo": []}
     for f in repo.all_funcs():
         for n in walk_no_nested(f.node):
